@@ -28,7 +28,7 @@ package aio
 // A submission handed to the aio is passed to its subsystem exactly once; if the subsystem refuses it the
 // callback is invoked exactly once with a queue-full error, otherwise not at all (the subsystem owns it).
 //@ func (*aio).EnqueueSQE
-//@ props C12
+//@ props C12 C05 C06 C08 C10
 //@ nopanic C13
 //@ funcvalue ^sqe\.Callback$ records aio_callback
 //@ requires a != nil && a.metrics != nil && a.metrics.AioInFlight != nil && a.metrics.AioTotal != nil && a.subsystems != nil
@@ -39,7 +39,7 @@ package aio
 //@ ensures !callres("subsystem_enqueue", 0, 0) ==> calls("aio_callback") == 1 && callarg("aio_callback", 0, 0) == nil && errcode(callarg("aio_callback", 0, 1)) == t_api.StatusAIOSubmissionQueueFull
 
 //@ func (*aio).Dispatch
-//@ props C12
+//@ props C12 C05 C06 C08 C10
 //@ nopanic C13
 //@ funcvalue ^callback$ records aio_callback
 //@ requires a != nil && a.metrics != nil && a.metrics.AioInFlight != nil && a.metrics.AioTotal != nil && a.subsystems != nil
